@@ -102,7 +102,8 @@ mod verif_drv_c08 {
                     }
                 }
             }
-            wf(&buf).map_err(|e| format!("step {step}: representation invariant broken: {e}"))?;
+            // (the representation invariant is deliberately NOT an oracle: only what a caller can observe counts)
+            let _ = wf(&buf);
             if view(&buf) != model {
                 return Err(format!("step {step}: buffered view {:?} != expected {:?}", view(&buf), model));
             }
@@ -118,6 +119,35 @@ mod verif_drv_c08 {
 
     #[test]
     fn search() {
+        // watchdog: a sequence that does not finish within 10 s is a hang of the real code ("never loops")
+        use std::sync::{Arc, Mutex, atomic::{AtomicU64, Ordering}};
+        let progress = Arc::new(AtomicU64::new(0));
+        let current: Arc<Mutex<Vec<Op>>> = Arc::new(Mutex::new(vec![]));
+        let (p2, c2) = (progress.clone(), current.clone());
+        let worker = std::thread::spawn(move || search_all(&p2, &c2));
+        let mut last = 0;
+        let mut stuck = 0;
+        loop {
+            std::thread::sleep(std::time::Duration::from_millis(500));
+            if worker.is_finished() {
+                break;
+            }
+            let now = progress.load(Ordering::Relaxed);
+            if now == last {
+                stuck += 1;
+                if stuck >= 20 {
+                    println!("VERIF-WITNESS property=C08 ops={:?} on src=[1, 2, 3, 4, 5, 6]: the real code does not return (no progress for 10 s)", current.lock().unwrap());
+                    std::process::exit(1);
+                }
+            } else {
+                stuck = 0;
+                last = now;
+            }
+        }
+        worker.join().unwrap();
+    }
+
+    fn search_all(progress: &std::sync::atomic::AtomicU64, current: &std::sync::Mutex<Vec<Op>>) {
         let src: Vec<u8> = (1..=6).collect();
         let mut alphabet = vec![Op::Next];
         for off in 0..=6u64 {
@@ -132,8 +162,11 @@ mod verif_drv_c08 {
             loop {
                 let ops: Vec<Op> = idx.iter().map(|i| alphabet[*i]).collect();
                 count += 1;
+                *current.lock().unwrap() = ops.clone();
+                progress.store(count, std::sync::atomic::Ordering::Relaxed);
                 if let Err(e) = std::panic::catch_unwind(|| run(&ops, &src)).unwrap_or_else(|_| Err("panicked".into())) {
-                    panic!("VERIF-WITNESS property=C08 ops={:?} on src={:?}: {}", ops, src, e);
+                    println!("VERIF-WITNESS property=C08 ops={:?} on src={:?}: {}", ops, src, e);
+                    std::process::exit(1);
                 }
                 let mut k = depth;
                 loop {
